@@ -461,7 +461,60 @@ def build() -> Check:
                     badm.append(f"children recorded {list(combo)}: item {i} ({stn}) carries error {ek}")
     ck.floor("mixed_replay_paths", n_mixed, 16)
     ck.ob("R1.replay-item-carries-own-outcome", fn_construct(f_replay), not badm, "; ".join(badm[:2]) or f"{n_mixed} paths over 16 status pairs")
+    _publication_order(ck, prog)
     return ck
+
+
+def _publication_order(ck, prog):
+    """R1.payload-published-before-status (h2_C09 #1): a branch finishes in a pool thread while the caller - woken by an early decision - builds the
+    result from the branch states, reading `status` and then `.result` / `.error`. The getters refuse (InvalidStateError) while the payload field is
+    unset although the status says COMPLETED / FAILED, and the caller records that error as the outcome of the whole map/parallel. Nothing but program
+    order protects the pair, so a transition must write the payload fields first and publish the status last."""
+    ews = prog.cls("concurrency.models", "ExecutableWithState")
+    # (status member, payload fields) pairs from the getters: a property that raises unless `self._status` is <member> and tests / returns other fields
+    pairs: dict[str, set[str]] = {}
+    for name, fi in ews.methods.items():
+        if not any(isinstance(d, ast.Name) and d.id == "property" for d in fi.node.decorator_list):
+            continue
+        members, fields = set(), set()
+        for n in ast.walk(fi.node):
+            if isinstance(n, ast.Compare) and isinstance(n.left, ast.Attribute) and n.left.attr == "_status" and len(n.ops) == 1 \
+                    and isinstance(n.ops[0], (ast.NotEq, ast.IsNot)) and isinstance(n.comparators[0], ast.Attribute):
+                members.add(n.comparators[0].attr)
+            elif isinstance(n, ast.Attribute) and isinstance(n.value, ast.Name) and n.value.id == "self" and n.attr.startswith("_") and n.attr != "_status":
+                fields.add(n.attr)
+        raises = any(isinstance(n, ast.Raise) for n in ast.walk(fi.node))
+        if raises and len(members) == 1 and fields:
+            pairs.setdefault(next(iter(members)), set()).update(fields)
+    ck.analysed["status_guarded_payloads"] = {k: sorted(v) for k, v in sorted(pairs.items())}
+    ck.floor("status_guarded_payload_pairs", len(pairs), 2)
+    n_tr = 0
+    for member, fields in sorted(pairs.items()):
+        for name, fi in ews.methods.items():
+            body = [st for st in fi.node.body if not (isinstance(st, ast.Expr) and isinstance(st.value, ast.Constant))]
+            pos_status = [i for i, st in enumerate(body) if isinstance(st, ast.Assign) and any(
+                isinstance(t, ast.Attribute) and t.attr == "_status" for t in st.targets) and isinstance(st.value, ast.Attribute) and st.value.attr == member]
+            if not pos_status:
+                # a status write that is not a top-level statement of the method is not understood
+                if any(isinstance(n, ast.Assign) and any(isinstance(t, ast.Attribute) and t.attr == "_status" for t in n.targets)
+                       and isinstance(n.value, ast.Attribute) and n.value.attr == member for n in ast.walk(fi.node)):
+                    raise AnalysisError(f"{ews.name}.{name}: status {member} is assigned in a nested statement")
+                continue
+            n_tr += 1
+            written = {}
+            for i, st in enumerate(body):
+                for n in ast.walk(st):
+                    if isinstance(n, (ast.Assign, ast.AnnAssign, ast.AugAssign)):
+                        for t in (n.targets if isinstance(n, ast.Assign) else [n.target]):
+                            if isinstance(t, ast.Attribute) and isinstance(t.value, ast.Name) and t.value.id == "self" and t.attr in fields:
+                                written.setdefault(t.attr, []).append(i)
+            late = sorted(f for f, ps in written.items() if max(ps) > pos_status[0])
+            missing = sorted(fields - set(written))
+            ck.ob("R1.payload-published-before-status", fn_construct(fi), not late and not missing,
+                  (f"`self._status = BranchStatus.{member}` is written before {late}: a caller woken by an early decision that sees {member} and reads the "
+                   "payload in that window gets InvalidStateError, which is recorded as the FAILURE of the whole map/parallel although no branch failed"
+                   if late else f"the transition to {member} does not set {missing}"), cell=member)
+    ck.floor("status_publishing_transitions", n_tr, 2)
 
 
 def _is_none(v):
